@@ -55,6 +55,19 @@ def fixed_shapes() -> list[str]:
         out.append(f"def disp_list_dead_{n}(i: int) -> int:\n    v = mk(i)\n    a = [{', '.join(['v'] * n)}]\n    return len(a)\n")
         out.append(f"def disp_list_arg_{n}(v: C) -> List[C]:\n    return [{', '.join(['v'] * n)}]\n")
         out.append(f"def disp_tuple_{min(n, 6)}_{n}(i: int) -> int:\n    v = mk(i)\n    t = ({', '.join(['v'] * min(n, 6))},)\n    return use(t[0])\n")
+    # __init__ that lets other code see `self` (a method call, a helper) and stores an attribute
+    # afterwards: such a store is not an initialisation, the old value has to be released
+    k_ = 0
+    for first in (True, False):
+        for leak in ("self.reset()", "see(self)", "self.b = self.mk2()"):
+            k_ += 1
+            out.append(
+                f"class InitLeak{k_}:\n    def __init__(self, v: C) -> None:\n"
+                + ("        self.a = v\n" if first else "")
+                + f"        self.b = v\n        {leak}\n        self.a = v\n"
+                + "    def reset(self) -> None:\n        self.a = mk(0)\n    def mk2(self) -> C:\n        self.a = mk(1)\n        return mk(2)\n"
+                + f"def see(o: 'InitLeak{k_}') -> None:\n    o.a = mk(3)\n" * (1 if "see(" in leak else 0)
+            )
     # a borrowed argument reassigned on some branches only, while a local dies on the edges that skip
     # a call: several edges into one join block release the same values but need different increfs
     # (the refcount transform shares per-edge fix-up blocks through a cache)
